@@ -13,10 +13,21 @@
                                                   (o ok, s Sync error, n nothing written, t torn, l all but the newline, w whole line + error)
                                                   -> lines=<start:end:card | x (unparsable)>;... all=<n|err>
                 metrics jipcf <interval> <plan> <ops>   jipc with a failing sink -> lines=... wins=<...|err> uniq=...
+                metrics jconc <interval> <ops>   jipc ops plus  h<t> (the journal's next Write is held open: a slow disk)  and
+                                                  r<t> (the disk answers; every poll in flight returns).  Polls issued while a Write
+                                                  is held are concurrent callers.  Executed on the thread machine of
+                                                  Model/JournalConc.v WITH the mutex (one thread per call, the holder stops between the
+                                                  two halves of its flush, the others are given their call and block, [r] lets the
+                                                  holder and then the others finish)
+                                                  -> chunks=<start:end:card;...> memb=<for each accepted poll: the chunks (i+j.. or -)
+                                                     that hold its address> ret=<clock when each accepted poll returned> uniq=...
+                metrics jsoak <goroutines> <polls each> <interval us> <write us>   unforced concurrent polls, slow sink
+                                                  -> polls=<n> lost=0 misplaced=0 twice=0 tiled=1
+                the ipc op  gl,<n>  = LoadGeoipDatabases: n = 0 fails (no table afterwards), n >= 1 loads a pair of files
    For [conc]/[race] the model answer is computed with the sequential [incsN]; by C19_inc_conc (repaired
    machine) every interleaving of the Incs publishes exactly this value at every quiescent point. *)
 From Coq Require Import List NArith ZArith Bool Arith String.
-From Snow Require Import Lib.Wire Model.Round8 Model.Metrics Model.Journal Model.BrokerJournal.
+From Snow Require Import Lib.Wire Model.Round8 Model.Metrics Model.Journal Model.BrokerJournal Model.JournalConc.
 Import ListNotations.
 Open Scope N_scope.
 
@@ -94,7 +105,8 @@ Definition op_parse (t : bytes) : option op :=
   | [k; n] =>
       match dec_parse n with
       | Some n => if beq k (bs "cd") then Some (ClientDenied n) else if beq k (bs "cm") then Some (ClientMatched n)
-                  else if beq k (bs "ct") then Some (ClientTimeout n) else None
+                  else if beq k (bs "ct") then Some (ClientTimeout n)
+                  else if beq k (bs "gl") then Some (Reload (negb (n =? 0))) else None
       | None => None
       end
   | [k; a; c; t; n; r; o] =>
@@ -335,6 +347,145 @@ Definition run_broker_journal (args : list bytes) : option bytes :=
   | _ => None
   end.
 
+(* ---------- the journal behind the broker with concurrent polls: the thread machine with the mutex ---------- *)
+Definition cs1 := cstep bytes bytes bmask beq true.
+Definition jcst := cst bytes bytes.
+
+Record jc := { jc_s : jcst; jc_armed : bool; jc_holder : option nat; jc_wait : list nat; jc_next : nat;
+               jc_polls : list (nat * bytes); jc_ret : list (nat * Z) }.
+
+Definition tick_to (t : Z) (s : jcst) : jcst := if (c_clk s <=? t)%Z then cs1 s (Tick (Z.to_N (t - c_clk s))) else s.
+
+(* thread i steps until it is outside (or, when the gate is armed, until it sits between the two halves of a flush) *)
+Fixpoint run_thread (stop_at_w2 : bool) (fuel : nat) (s : jcst) (i : nat) : jcst * bool :=
+  match fuel with
+  | O => (s, false)
+  | S f =>
+      match c_pc s i with
+      | JI => (s, false)
+      | JW2 _ _ => if stop_at_w2 then (s, true) else run_thread stop_at_w2 f (cs1 s (Step i)) i
+      | _ => run_thread stop_at_w2 f (cs1 s (Step i)) i
+      end
+  end.
+
+Definition jc_finish (st : jc) (s : jcst) (i : nat) : jc :=
+  {| jc_s := s; jc_armed := jc_armed st; jc_holder := jc_holder st; jc_wait := jc_wait st; jc_next := jc_next st;
+     jc_polls := jc_polls st; jc_ret := jc_ret st ++ [(i, c_clk s)] |}.
+
+Inductive jcop := JcB (o : bop) | JcHold (t : Z) | JcRelease (t : Z).
+
+Definition jcop_parse (t : bytes) : option jcop :=
+  match t with
+  | 104 :: r => option_map JcHold (zparse r)                 (* h<t> *)
+  | 114 :: r => option_map JcRelease (zparse r)              (* r<t> *)
+  | _ => option_map JcB (bop_parse t)
+  end.
+
+Definition jc_step (st : option jc) (o : jcop) : option jc :=
+  match st with
+  | None => None
+  | Some st =>
+      match o with
+      | JcHold t =>
+          Some {| jc_s := tick_to t (jc_s st); jc_armed := true; jc_holder := jc_holder st; jc_wait := jc_wait st;
+                  jc_next := jc_next st; jc_polls := jc_polls st; jc_ret := jc_ret st |}
+      | JcRelease t =>
+          let s1 := tick_to t (jc_s st) in
+          let st1 := {| jc_s := s1; jc_armed := false; jc_holder := None; jc_wait := []; jc_next := jc_next st;
+                        jc_polls := jc_polls st; jc_ret := jc_ret st |} in
+          match jc_holder st with
+          | None => Some st1
+          | Some h =>
+              Some (fold_left (fun acc i => jc_finish acc (fst (run_thread false 8 (jc_s acc) i)) i) (h :: jc_wait st) st1)
+          end
+      | JcB (FlushAt t) =>
+          if jc_armed st || (match jc_holder st with Some _ => true | None => false end) then None
+          else
+            let i := jc_next st in
+            let s2 := cs1 (tick_to t (jc_s st)) (Call i CFlush) in
+            Some {| jc_s := fst (run_thread false 8 s2 i); jc_armed := false; jc_holder := None; jc_wait := jc_wait st;
+                    jc_next := S i; jc_polls := jc_polls st; jc_ret := jc_ret st |}
+      | JcB (At t o) =>
+          match recorded o with
+          | None =>
+              (* zeroMetrics, rejected polls, polls without a port: nothing reaches the journal; zeroMetrics takes the mutex,
+                 the driver never issues it while a Write is held *)
+              match o, jc_holder st with
+              | Zero, Some _ => None
+              | _, _ => Some {| jc_s := tick_to t (jc_s st); jc_armed := jc_armed st; jc_holder := jc_holder st; jc_wait := jc_wait st;
+                                jc_next := jc_next st; jc_polls := jc_polls st; jc_ret := jc_ret st |}
+              end
+          | Some ip =>
+              let i := jc_next st in
+              let s2 := cs1 (tick_to t (jc_s st)) (Call i (CPoll ip)) in
+              match jc_holder st with
+              | Some _ =>
+                  (* the mutex is held by the thread in the disk write: this one blocks *)
+                  Some {| jc_s := fst (run_thread false 8 s2 i); jc_armed := jc_armed st; jc_holder := jc_holder st;
+                          jc_wait := jc_wait st ++ [i]; jc_next := S i; jc_polls := jc_polls st ++ [(i, ip)]; jc_ret := jc_ret st |}
+              | None =>
+                  let '(s3, held) := run_thread (jc_armed st) 8 s2 i in
+                  if held then
+                    Some {| jc_s := s3; jc_armed := false; jc_holder := Some i; jc_wait := []; jc_next := S i;
+                            jc_polls := jc_polls st ++ [(i, ip)]; jc_ret := jc_ret st |}
+                  else
+                    Some {| jc_s := s3; jc_armed := jc_armed st; jc_holder := None; jc_wait := []; jc_next := S i;
+                            jc_polls := jc_polls st ++ [(i, ip)]; jc_ret := jc_ret st ++ [(i, c_clk s3)] |}
+              end
+          end
+      end
+  end.
+
+Fixpoint nat_find (i : nat) (l : list (nat * Z)) : option Z :=
+  match l with [] => None | (j, z) :: r => if Nat.eqb i j then Some z else nat_find i r end.
+
+Definition memb_item (j : list (chunk bytes)) (ip : bytes) : bytes :=
+  let hits := filter (fun ic => hmem bytes beq (bmask ip) (c_sk (snd ic))) (enum_from 0 j) in
+  match hits with [] => bs "-" | _ => join (bs "+") (map (fun ic => dec_print (fst ic)) hits) end.
+
+Definition jc_bops (ops : list jcop) : list bop := flat_map (fun o => match o with JcB b => [b] | _ => [] end) ops.
+
+Definition run_jconc (k : Z) (ops : list jcop) : option bytes :=
+  let st0 := {| jc_s := cinit 0%Z k; jc_armed := false; jc_holder := None; jc_wait := []; jc_next := O; jc_polls := []; jc_ret := [] |} in
+  match fold_left jc_step ops (Some st0) with
+  | None => None
+  | Some st =>
+      match jc_holder st with
+      | Some _ => None
+      | None =>
+          let j := w_out (c_w (jc_s st)) in
+          let r := print (exec (flat_map mop_of (jc_bops ops)) (minit false)) in
+          Some (bs "chunks=" ++ (match j with [] => bs "-" | _ => join [SEMI] (map bchunk_print j) end) ++
+                bs " memb=" ++ list_print (map (fun p => memb_item j (snd p)) (jc_polls st)) ++
+                bs " ret=" ++ list_print (map (fun p => match nat_find (fst p) (jc_ret st) with Some z => zprint z | None => bs "?" end) (jc_polls st)) ++
+                bs " uniq=" ++ DOTS (map (fun t => dec_print (r_type r t)) [0; 1; 2; 3] ++ [dec_print (r_total r)]))
+      end
+  end.
+
+Definition run_conc_journal (args : list bytes) : option bytes :=
+  match args with
+  | [op; a; b] =>
+      if beq op (bs "jconc") then
+        match zparse a, list_parse jcop_parse b with
+        | Some k, Some ops => match run_jconc k ops with Some r => Some r | None => Some ERR_BADCASE end
+        | _, _ => None
+        end
+      else None
+  | [op; g; n; _; _] =>
+      (* goroutines x polls concurrent accepted polls from distinct addresses: by C19_journal_conc_records_every_poll
+         every schedule records every one of them exactly once, in a chunk that spans its instant, and the chunks tile *)
+      if beq op (bs "jsoak") then
+        match dec_parse g, dec_parse n with
+        | Some g, Some n =>
+            if (1 <=? g) && (1 <=? n) then
+              Some (bs "polls=" ++ dec_print (g * n) ++ bs " lost=0 misplaced=0 twice=0 tiled=1")
+            else None
+        | _, _ => None
+        end
+      else None
+  | _ => None
+  end.
+
 Definition run (args : list bytes) : bytes :=
   match run_round8 args with
   | Some r => r
@@ -342,7 +493,10 @@ Definition run (args : list bytes) : bytes :=
             | Some r => r
             | None => match run_journal args with
                       | Some r => r
-                      | None => match run_broker_journal args with Some r => r | None => ERR_BADCASE end
+                      | None => match run_broker_journal args with
+                                | Some r => r
+                                | None => match run_conc_journal args with Some r => r | None => ERR_BADCASE end
+                                end
                       end
             end
   end.
